@@ -26,6 +26,7 @@ ASSUMPTIONS = [
     'target code is plain ASCII Lua whose echo is the identity (string re-spelling is C06\'s subject)',
 ]
 EXHAUSTIVE = {'quick': False, 'thorough': False}
+PYOPT_KINDS = (None,)
 KNOWN_KEYS = {'include-no-final-newline'}
 
 
